@@ -112,8 +112,6 @@ def _classify_wrap(I, s, length):
         return out
     text = ''.join(lines)
     spans = [(m.start(), m.end()) for m in _colour_span_re.finditer(text)]
-    # the bot's own parser reads any number of digits
-    spans += [(m.start(), m.end()) for m in re.finditer(r'\x03\d*(?:,\d*)?', text)]
     pos = 0
     for l in lines[:-1]:
         pos += len(l)
@@ -123,7 +121,7 @@ def _classify_wrap(I, s, length):
     for l in lines:
         if ctx is not None:
             if ctx.fg is not None and ctx.bg is None and not (ctx.bold or ctx.reverse or ctx.underline) \
-                    and re.match(r'\d*,\d', l):
+                    and re.match(r',\d', l):
                 out.add(F_COMMA)
             l = ctx.start(l)
         ctx = I.ircutils.FormatParser(l).parse()
